@@ -637,3 +637,8 @@ MUTANTS += [
          "[CellBoundary]\ncreate = coulomb_nearby, coulomb_cell_veto, cell_boundary, coulomb_surplus\ntrash = coulomb_nearby, coulomb_cell_veto, cell_boundary, coulomb_surplus",
          "[CellBoundary]\ncreate = coulomb_nearby, cell_boundary, coulomb_surplus\ntrash = coulomb_nearby, cell_boundary, coulomb_surplus", "R18.6"),
 ]
+
+# seventh round (C18_G): speed of another unit than the one whose clock the candidate time is counted from
+MUTANTS.append(Edit("speed of the first leaf cnode's parent chain instead of the active leaf unit", CV,
+                    "speed = self._active_leaf_unit.velocity[direction_of_motion]",
+                    "speed = self._leaf_cnodes[0].value.velocity[direction_of_motion]", "R18.4"))
